@@ -198,6 +198,9 @@ func (r *Run) c16Scenario(i int) {
 		mu.Unlock()
 		r.violation(what, map[string]interface{}{"target": hx(target[:]), "events": e})
 	}
+	batch := i%2 == 1
+	batchStart := time.Now()
+	const batchEvery = 400 * time.Microsecond
 	// the order in which the server processed get_peers responses
 	var resps []string
 	respCount := map[string]int{}
@@ -254,6 +257,11 @@ func (r *Run) c16Scenario(i int) {
 			raw := reply.enc()
 			mu.Lock()
 			delay := time.Duration(lrng.Intn(300)) * time.Microsecond
+			if batch {
+				// replies are released together, in batches: the responses to all queries in flight are
+				// folded into the lookup at the same moment
+				delay = time.Until(batchStart.Add((time.Since(batchStart)/batchEvery + 1) * batchEvery))
+			}
 			mu.Unlock()
 			go func() {
 				time.Sleep(delay)
@@ -287,6 +295,9 @@ func (r *Run) c16Scenario(i int) {
 	}
 	port := 1 + rng.Intn(65535)
 	implied := rng.Intn(3) == 0
+	if implied && rng.Intn(3) == 0 {
+		port = 0 // boundary of the option: no port configured, implied_port only (port 0 without implied_port means "do not announce")
+	}
 	doAnnounce := rng.Intn(5) != 0
 	var opts []dht.AnnounceOpt
 	if doAnnounce {
@@ -401,6 +412,9 @@ func (r *Run) c16Scenario(i int) {
 		if implied {
 			if o.implied != 1 {
 				viol("announce_peer lacks implied_port although configured")
+			}
+			if !o.hasPort || int(o.port) != port {
+				viol(fmt.Sprintf("announce_peer with implied_port does not carry the configured port argument (BEP 5 requires `port` in every announce_peer): hasPort=%v port=%d configured=%d", o.hasPort, o.port, port))
 			}
 		} else if !o.hasPort || int(o.port) != port || o.implied != 0 {
 			viol(fmt.Sprintf("announce_peer port/implied_port differ from the configured ones: port=%d implied=%d want port=%d", o.port, o.implied, port))
